@@ -3,6 +3,7 @@ import EupsModel.Lemmas.CondLex
 import EupsModel.Model.CondPinned
 import EupsModel.Lemmas.TableBlocks
 import EupsModel.Lemmas.TableText
+import EupsModel.Lemmas.TableLegacy
 /-! C11 — table files mean what they say.  Property theorems only: the specification side is in
 `Spec/C11.lean`, the models in `Model/{Cond,CondPinned,TableParse}.lean`, the lemmas in `Lemmas/Cond*.lean`. -/
 namespace EupsModel.C11
@@ -230,6 +231,40 @@ theorem C11_else_trailing_blank_witness :
     tableActions { repaired with d31 := false } none envLinux emptyIfText = .ok [actA] ∧
     tableActions repaired none ⟨Str.ofString "Darwin", []⟩ emptyIfText = .ok [actA] ∧
     tableActions repaired none envLinux emptyIfText = .ok [] := by decide +kernel
+
+/-! ## legacy groups -/
+
+/-- **C11_legacy_groups (runs of `Flavor=` lines).**  For every table text made of lines outside any group
+followed by groups — each one or more `Flavor = f` lines (keyword in any letter case, blanks around `=`,
+indentation, trailing comments) and then the lines up to the next group — `_rewrite` produces exactly the lines
+of the same table with every group written as `if (FLAVOR == f1 || FLAVOR == f2 …) {` … `}`; hence, whatever the
+reader variant, the product and the environment, `Table.actions` gives the same result for the legacy text and
+for its `if` form. -/
+theorem C11_legacy_groups (pre : List Str) (gs : List FGroup) (nl : Bool) (hpre : pre.all passesLine = true)
+    (hgs : gs.all FGroup.ok = true) :
+    rewrite (legacyText pre gs nl) = rewrite (legacyAsIfText pre gs nl) ∧
+    ∀ (v : Variant) (pdir : Option Str) (env : Env),
+      tableActions v pdir env (legacyText pre gs nl) = tableActions v pdir env (legacyAsIfText pre gs nl) := by
+  have h : rewrite (legacyText pre gs nl) = rewrite (legacyAsIfText pre gs nl) := by
+    rw [rewrite_legacy pre gs nl hpre hgs, rewrite_asIf pre gs nl hpre hgs]
+  exact ⟨h, fun v pdir env => by simp only [tableActions, parse, h]⟩
+
+/-! ### non-vacuity -/
+
+def legacyPre : List Str := [Str.ofString "envSet(A, 1)  # always"]
+def legacyGroups : List FGroup :=
+  [ ⟨⟨⟨[], []⟩, Str.ofString "Flavor", [32], [32], Str.ofString "Linux", []⟩,
+     [⟨⟨[32], Str.ofString "# too"⟩, Str.ofString "FLAVOR", [], [], Str.ofString "Linux64", [32]⟩],
+     Str.ofString "  envSet(B, 2)", [Str.ofString "# c", Str.ofString "  envSet(C, 3)"]⟩,
+    ⟨⟨⟨[], []⟩, Str.ofString "flavor", [32], [], Str.ofString "Darwin", []⟩, [], Str.ofString "envSet(B, 4)", []⟩ ]
+
+example : legacyPre.all passesLine = true ∧ legacyGroups.all FGroup.ok = true := by decide +kernel
+example : legacyText legacyPre legacyGroups true = Str.ofString
+    "envSet(A, 1)  # always\nFlavor = Linux\n FLAVOR=Linux64 # too\n  envSet(B, 2)\n# c\n  envSet(C, 3)\nflavor =Darwin\nenvSet(B, 4)\n" := by
+  decide +kernel
+example : legacyAsIfText legacyPre legacyGroups true = Str.ofString
+    "envSet(A, 1)  # always\nif (FLAVOR == Linux || FLAVOR == Linux64) {\nenvSet(B, 2)\nenvSet(C, 3)\n}\nif (FLAVOR == Darwin) {\nenvSet(B, 4)\n}\n" := by
+  decide +kernel
 
 /-! ## arguments -/
 
